@@ -30,10 +30,18 @@ def entry_points():
     from synphot import units, binning, Observation
     src, bp, obs = fixtures()
     area = 100.0
+    from synphot import SourceSpectrum, SpectralElement
+    from synphot.models import ConstFlux1D, PowerLawFlux1D, Box1D
+    flat = SourceSpectrum(ConstFlux1D, amplitude=1e-15 * units.FLAM)
+    plaw = SourceSpectrum(PowerLawFlux1D, amplitude=2.0, x_0=2000, alpha=2)
+    boxbp = SpectralElement(Box1D, amplitude=0.5, x_0=2500, width=800)
     ep = {
         'source.__call__': lambda w: src(w).value,
         'source.__call__(flux_unit)': lambda w: src(w, flux_unit='flam').value,
         'source.integrate': lambda w: src.integrate(wavelengths=w, integration_type='trapezoid').value,
+        'flat_source.integrate(analytical)': lambda w: flat.integrate(wavelengths=w, integration_type='analytical').value,
+        'powerlaw_source.integrate(analytical)': lambda w: plaw.integrate(wavelengths=w, integration_type='analytical').value,
+        'box_bandpass.integrate(analytical)': lambda w: boxbp.integrate(wavelengths=w, integration_type='analytical').value,
         'source.avgwave': lambda w: src.avgwave(wavelengths=w).value,
         'source.barlam': lambda w: src.barlam(wavelengths=w).value,
         'source.pivot': lambda w: src.pivot(wavelengths=w).value,
